@@ -153,9 +153,17 @@ func keys(m map[int]bool) []int {
 
 // genSig draws one confirm signature of an adversarial kind for block b.
 func (m *machine) genSig(t *rapid.T, b *types.Block, made map[int]types.SignData) (types.SignData, string) {
-	kind := rapid.SampledFrom([]string{"valid", "valid", "valid", "repeat", "reencoded", "outsider", "miner", "garbage", "other-block"}).Draw(t, "sigKind")
+	kind := rapid.SampledFrom([]string{"valid", "valid", "valid", "repeat", "reencoded", "own-reencoded", "outsider", "miner", "garbage", "other-block"}).Draw(t, "sigKind")
 	d := rapid.IntRange(0, len(m.w.Deputies)-1).Draw(t, "signer")
 	switch kind {
+	case "own-reencoded": // the confirm the node under test itself gives (or gave before a restart) for this block, in its other encoding
+		if m.v.Self != nil {
+			s := sim.ConfirmAs(b, m.v.Self)
+			return types.BytesToSignData(sim.Malleate(s[:])), "own-reencoded"
+		}
+		s := sim.ConfirmAs(b, m.w.Deputies[d])
+		made[d] = s
+		return s, fmt.Sprintf("d%d", d)
 	case "valid":
 		s := sim.ConfirmAs(b, m.w.Deputies[d])
 		made[d] = s
